@@ -224,7 +224,7 @@ Lemma drain_end c r d d' :
   r_lim r = None -> dinv r d -> drain c r d = (false, d') -> framed_len (r_fr r) = Some (s_pos (d_st d')).
 Proof.
   intros L I H. unfold drain in H.
-  destruct (rread r d (Some (c_max c + 1))) as [x d2] eqn:Hs.
+  destruct (rread r d (Some (emax c r + 1))) as [x d2] eqn:Hs.
   destruct x; try discriminate. injection H as <-.
   exact (proj2 (rread_dinv _ _ _ _ _ L I Hs) eq_refl).
 Qed.
@@ -285,6 +285,8 @@ Definition wf_req (r : req) : Prop :=
   | FChunked cs _ _ => Forall (fun c => 0 <= ch_size c) cs
   end.
 Definition wf_cfg (c : cfg) : Prop := 0 < c_max c.
+Lemma emax_pos c r : wf_cfg c -> 0 < emax c r.
+Proof. unfold wf_cfg, emax. destruct (0 <? r_max r) eqn:E; lia. Qed.
 
 Definition ready_ok (r : req) (pos : Z) (st : option sst) : Prop :=
   match st with
@@ -295,7 +297,7 @@ Definition ready_ok (r : req) (pos : Z) (st : option sst) : Prop :=
 Lemma read_body_ready c r b pos st :
   wf_cfg c -> wf_req r -> r_lim r = None -> read_body c r b = BReady pos st -> ready_ok r pos st.
 Proof.
-  intros Wc Wr L H. unfold read_body in H. unfold wf_req in Wr. unfold wf_cfg in Wc.
+  intros Wc Wr L H. unfold read_body in H. unfold wf_req in Wr. apply (emax_pos c r) in Wc.
   destruct (c_stream c).
   - unfold continueReadBodyStream in H. rewrite L in H. unfold ready_ok, sinv.
     destruct (r_fr r) as [|n|cs zl tl].
@@ -308,12 +310,12 @@ Proof.
   - unfold continueReadBody in H. rewrite L in H. unfold ready_ok.
     destruct (r_fr r) as [|n|cs zl tl].
     + injection H as <- <-. reflexivity.
-    + destruct ((0 <? n) && (c_max c >? 0) && (n >? c_max c)); [destruct b; discriminate|].
+    + destruct ((0 <? n) && (emax c r >? 0) && (n >? emax c r)); [destruct b; discriminate|].
       destruct (if (0 <? n) && c_preparse c then r_mp r else None) as [ok|].
       * unfold readMultipart in H. destruct ok; [|destruct b; discriminate]. injection H as <- <-. cbn. f_equal; try lia.
-      * destruct ((c_max c >? 0) && (n >? c_max c)); [destruct b; discriminate|].
+      * destruct ((emax c r >? 0) && (n >? emax c r)); [destruct b; discriminate|].
         cbn in H. injection H as <- <-. cbn. f_equal; try lia.
-    + destruct (nsChunked None (c_max c) cs zl 0 0) as [p1| |] eqn:Hn; try (destruct b; discriminate).
+    + destruct (nsChunked None (emax c r) cs zl 0 0) as [p1| |] eqn:Hn; try (destruct b; discriminate).
       cbn in H. injection H as <- <-. apply nsChunked_ok in Hn as [-> B].
       cbn. rewrite B. rewrite chunks_len_framed by assumption. f_equal; try lia.
 Qed.
@@ -322,6 +324,7 @@ Lemma before_handler_ready c r evs pos st :
   wf_cfg c -> wf_req r -> r_lim r = None -> before_handler c r = PRun evs pos st -> ready_ok r pos st.
 Proof.
   intros Wc Wr L H. unfold before_handler in H.
+  destruct (negb (r_uri_ok r)); [discriminate|].
   destruct (c_getonly c && negb (r_getlike r)); [discriminate|].
   destruct (r_expect r).
   - destruct (expect_verdict c r); [discriminate|].
@@ -417,6 +420,7 @@ Theorem rejected_expectation_closes rel c r p :
   exists status, serve_one rel c r p = ([EResp status true], None, p).
 Proof.
   intros H. rewrite expect_verdict_spec in H. unfold serve_one, before_handler.
+  destruct (negb (r_uri_ok r)); [eexists; reflexivity|].
   destruct (c_getonly c && negb (r_getlike r)); [eexists; reflexivity|].
   assert (E : r_expect r = true).
   { unfold expect_verdict in H. destruct (r_expect r); [reflexivity|discriminate]. }
@@ -505,41 +509,41 @@ Proof.
 Qed.
 
 Definition refusable (c : cfg) (r : req) : bool :=
-  negb (well_framed r) || (c_max c <? data_len (r_fr r)) || match r_mp r with Some false => true | _ => false end.
+  negb (well_framed r) || (emax c r <? data_len (r_fr r)) || match r_mp r with Some false => true | _ => false end.
 
 Lemma read_body_fail c r b :
   wf_cfg c -> wf_req r -> r_lim r = None ->
   match read_body c r b with BReady _ _ => True | _ => refusable c r = true end.
 Proof.
-  intros Wc Wr L. unfold read_body, refusable, well_framed. rewrite L. unfold wf_cfg in Wc. unfold wf_req in Wr.
+  intros Wc Wr L. unfold read_body, refusable, well_framed. rewrite L. apply (emax_pos c r) in Wc. unfold wf_req in Wr.
   destruct (c_stream c).
   - unfold continueReadBodyStream. rewrite L. destruct (r_fr r) as [|n|cs zl tl]; try exact I.
     destruct ((0 <? n) && c_preparse c).
     + destruct (r_mp r) as [[|]|]; cbn; try exact I. destruct b; cbn; apply orb_true_r.
     + cbn. exact I.
   - unfold continueReadBody. rewrite L. destruct (r_fr r) as [|n|cs zl tl]; try exact I.
-    + destruct ((0 <? n) && (c_max c >? 0) && (n >? c_max c)) eqn:E1.
-      { assert (c_max c <? n = true) by lia. destruct b; cbn; rewrite H; reflexivity. }
+    + destruct ((0 <? n) && (emax c r >? 0) && (n >? emax c r)) eqn:E1.
+      { assert (emax c r <? n = true) by lia. destruct b; cbn; rewrite H; reflexivity. }
       destruct ((0 <? n) && c_preparse c).
       * destruct (r_mp r) as [[|]|]; cbn; try exact I.
         -- destruct b; cbn; apply orb_true_r.
-        -- destruct ((c_max c >? 0) && (n >? c_max c)) eqn:E2; [|exact I].
-           assert (c_max c <? n = true) by lia. destruct b; cbn; rewrite H; reflexivity.
-      * destruct ((c_max c >? 0) && (n >? c_max c)) eqn:E2; [|exact I].
-        assert (c_max c <? n = true) by lia. destruct b; cbn; rewrite H; reflexivity.
-    + pose proof (nsChunked_err (c_max c) zl cs Wr 0 0) as E.
-      destruct (nsChunked None (c_max c) cs zl 0 0); cbn; [exact I|contradiction|].
-      assert (G : negb (if forallb ch_ok cs then true else false) || (c_max c <? fold_right (fun c0 a => ch_size c0 + a) 0 cs) = true).
+        -- destruct ((emax c r >? 0) && (n >? emax c r)) eqn:E2; [|exact I].
+           assert (emax c r <? n = true) by lia. destruct b; cbn; rewrite H; reflexivity.
+      * destruct ((emax c r >? 0) && (n >? emax c r)) eqn:E2; [|exact I].
+        assert (emax c r <? n = true) by lia. destruct b; cbn; rewrite H; reflexivity.
+    + pose proof (nsChunked_err (emax c r) zl cs Wr 0 0) as E.
+      destruct (nsChunked None (emax c r) cs zl 0 0); cbn; [exact I|contradiction|].
+      assert (G : negb (if forallb ch_ok cs then true else false) || (emax c r <? fold_right (fun c0 a => ch_size c0 + a) 0 cs) = true).
       { destruct E as [E|E]; [rewrite E; reflexivity|]. apply orb_true_iff. right. lia. }
       destruct b; cbn; destruct (forallb ch_ok cs); cbn in *; rewrite ?G; try reflexivity.
 Qed.
 
 Lemma may_refuse_split c r :
-  may_refuse c r = (c_getonly c && negb (r_getlike r)) || expectation_rejected c r || refusable c r.
+  may_refuse c r = negb (r_uri_ok r) || (c_getonly c && negb (r_getlike r)) || expectation_rejected c r || refusable c r.
 Proof.
   unfold may_refuse, refusable.
-  destruct (c_getonly c && negb (r_getlike r)), (expectation_rejected c r), (negb (well_framed r)),
-    (c_max c <? data_len (r_fr r)); reflexivity.
+  destruct (negb (r_uri_ok r)), (c_getonly c && negb (r_getlike r)), (expectation_rejected c r), (negb (well_framed r)),
+    (emax c r <? data_len (r_fr r)); reflexivity.
 Qed.
 
 Inductive shape (c : cfg) (r : req) : list event -> option Z -> Prop :=
@@ -568,8 +572,10 @@ Lemma serve_one_shape rel c r p :
   shape c r (fst (fst (serve_one rel c r p))) (snd (fst (serve_one rel c r p))).
 Proof.
   intros Wc Wr L. unfold serve_one, before_handler.
+  destruct (negb (r_uri_ok r)) eqn:U.
+  { cbn. apply ShRefuse. rewrite may_refuse_split, U. reflexivity. }
   destruct (c_getonly c && negb (r_getlike r)) eqn:G.
-  { cbn. apply ShRefuse. rewrite may_refuse_split, G. reflexivity. }
+  { cbn. apply ShRefuse. rewrite may_refuse_split, G, orb_true_r. reflexivity. }
   pose proof (expect_verdict_spec c r) as EV.
   assert (Run : forall pre0 pos st,
             (pre0 = [] \/ (pre0 = [E100] /\ r_expect r = true)) -> expectation_rejected c r = false ->
@@ -747,11 +753,11 @@ Qed.
 (* ------------------------------------------------------------------------------------ *)
 
 Definition wit_cfg : cfg := mkCfg true 20000 false true false false false.
-Definition wit_detach : req := mkReq 1 58 false false false (FFixed 10000) None None 0 false RNone FinDetach O None.
-Definition wit_timeout : req := mkReq 1 58 false false false (FFixed 10000) None None 0 false RNone FinTimeout O None.
+Definition wit_detach : req := mkReq 1 58 false false false (FFixed 10000) None None 0 false RNone FinDetach 0 true O None.
+Definition wit_timeout : req := mkReq 1 58 false false false (FFixed 10000) None None 0 false RNone FinTimeout 0 true O None.
 Definition wit_sticky : req :=
-  mkReq 1 58 false false false (FChunked [mkChunk 3 5 false; mkChunk 4 64 true] 3 2) None None 0 false REOF FinNone O None.
-Definition wit_detach_read : req := mkReq 1 58 false false false (FFixed 10000) None None 0 false REOF FinDetach O None.
+  mkReq 1 58 false false false (FChunked [mkChunk 3 5 false; mkChunk 4 64 true] 3 2) None None 0 false REOF FinNone 0 true O None.
+Definition wit_detach_read : req := mkReq 1 58 false false false (FFixed 10000) None None 0 false REOF FinDetach 0 true O None.
 
 Definition nxt_of (x : list event * option Z * rspool) : option Z := snd (fst x).
 
@@ -774,9 +780,9 @@ Definition release_forgets_eof (o : rsobj) : rsobj := mkRs 0 0 (o_eof o) None.
 (* connection 1: the peer goes away 60 bytes into a 200-byte chunk; connection 2: one well-formed
    400-byte chunk whose data carries CRLF + last-chunk + a request at raw offset 140, then a sentinel *)
 Definition pool_cfg : cfg := mkCfg true 10000 false true false false false.
-Definition pool_att : req := mkReq 1 58 false false false (FChunked [mkChunk 4 200 true] 3 2) None (Some 64) 0 false REOF FinNone O None.
-Definition pool_vic : req := mkReq 1 58 false false false (FChunked [mkChunk 5 400 true] 3 2) None None 0 false RNone FinNone O (Some (140, 7)).
-Definition pool_next : req := mkReq 2 29 true false false FNone None None 0 false RNone FinNone O None.
+Definition pool_att : req := mkReq 1 58 false false false (FChunked [mkChunk 4 200 true] 3 2) None (Some 64) 0 false REOF FinNone 0 true O None.
+Definition pool_vic : req := mkReq 1 58 false false false (FChunked [mkChunk 5 400 true] 3 2) None None 0 false RNone FinNone 0 true O (Some (140, 7)).
+Definition pool_next : req := mkReq 2 29 true false false FNone None None 0 false RNone FinNone 0 true O None.
 
 Lemma pool_reset_matters :
   (* with the real release the second connection is served cleanly ... *)
@@ -793,9 +799,9 @@ Proof. vm_compute. auto. Qed.
 
 (* the same for totalBytesRead (a fixed-length body is then left half unread) and eof (a chunked body
    is then not read at all) *)
-Definition fix_a : req := mkReq 1 58 false false false (FFixed 9000) None None 0 false REOF FinNone O None.
-Definition fix_b : req := mkReq 1 58 false false false (FFixed 10000) None None 0 false RNone FinNone O None.
-Definition chk_a : req := mkReq 1 58 false false false (FChunked [mkChunk 4 64 true] 3 2) None None 0 false REOF FinNone O None.
+Definition fix_a : req := mkReq 1 58 false false false (FFixed 9000) None None 0 false REOF FinNone 0 true O None.
+Definition fix_b : req := mkReq 1 58 false false false (FFixed 10000) None None 0 false RNone FinNone 0 true O None.
+Definition chk_a : req := mkReq 1 58 false false false (FChunked [mkChunk 4 64 true] 3 2) None None 0 false REOF FinNone 0 true O None.
 Lemma pool_reset_matters_other_fields :
   (exists id rel off, In (EDesync id rel off) (concat (serve_conns release_forgets_total pool_cfg [[fix_a; pool_next]; [fix_b; pool_next]] []))) /\
   (exists id rel off, In (EDesync id rel off) (concat (serve_conns release_forgets_eof pool_cfg [[chk_a; pool_next]; [chk_a; pool_next]] []))).
